@@ -51,6 +51,8 @@ func (s *FuzzServiceStub) ImportBlock(block types.Block) (types.StateRoot, error
 		defer cs.TrimUnfinalizedBlocksForFuzz()
 	}
 
+	checkpoint := cs.CheckpointImport()
+
 	blocks := cs.GetBlocks()
 	if len(blocks) > 0 {
 		latestBlock := cs.GetLatestBlock()
@@ -103,7 +105,7 @@ func (s *FuzzServiceStub) ImportBlock(block types.Block) (types.StateRoot, error
 	isProtocolError, err := stf.RunSTF()
 	if err != nil {
 		// A rejected block must leave the node as it was before the import
-		if rollbackErr := cs.RollbackFailedImport(block.Header.Parent); rollbackErr != nil {
+		if rollbackErr := cs.RollbackFailedImport(checkpoint); rollbackErr != nil {
 			logger.Errorf("%s rollback after failed import: %v", ctx, rollbackErr)
 		}
 		if !isProtocolError {
